@@ -295,6 +295,33 @@ impl<'a, 'b> GeneratorState<'a> {
             }
             f = self.generate_arithm(l, &Operation::Sub(false), r, pos, true)?;
         }
+        // After an unsigned subtraction the carry tells whether a borrow occurred: it must be
+        // looked at before the bytes of the difference are tested for zero
+        let unsigned_sub =
+            compute_subtraction && !matches!(f, ExprType::A(true) | ExprType::Tmp(true));
+        if unsigned_sub && (*op == Operation::Gt || *op == Operation::Lte) {
+            let ifstart_label = format!(".ifstart{}", self.local_label_counter_if);
+            self.local_label_counter_if += 1;
+            if let ExprType::A(_) = f {
+                self.acc_in_use = false;
+            }
+            if *op == Operation::Gt {
+                // Borrow: lower. Else greater unless both bytes of the difference are 0
+                self.asm(BCC, &ExprType::Label(ifstart_label.clone()), pos, false)?;
+                self.asm(BNE, &ExprType::Label(label.into()), pos, false)?;
+                self.asm(LDA, &ExprType::Tmp(false), pos, false)?;
+                self.asm(BNE, &ExprType::Label(label.into()), pos, false)?;
+            } else {
+                // Borrow: lower. Else lower or equal only when both bytes of the difference are 0
+                self.asm(BCC, &ExprType::Label(label.into()), pos, false)?;
+                self.asm(BNE, &ExprType::Label(ifstart_label.clone()), pos, false)?;
+                self.asm(LDA, &ExprType::Tmp(false), pos, false)?;
+                self.asm(BEQ, &ExprType::Label(label.into()), pos, false)?;
+            }
+            self.flags = FlagsState::Unknown;
+            self.tmp_in_use = false;
+            return self.label(&ifstart_label);
+        }
         let res = match op {
             Operation::Eq => {
                 let ifstart_label = format!(".ifstart{}", self.local_label_counter_if);
